@@ -140,12 +140,14 @@ def run(ctx):
     ctx.assumptions = ["keys are supplied by a complete key-log file for every cut (a cut that removes a later DSB is the C03 "
                        "missing-keys fault)"]
     import session_corr
-    ctx.prove(["TLX.Props.C08", "TLX.Props.C05", "TLX.Props.C08Session", "TLX.Props.C02Out", "TLX.Props.C01Pipeline"])
-    ctx.require_theorems(THEOREMS + session_corr.THEOREMS_C08 + ["TLX.Props.C02Out." + t for t in ("build_take_prefix_quic", "build_take_dropLast_prefix", "build_take_prefix_needs_distinct")] + ["TLX.Props.C01Pipeline.connOut_take_prefix"])
+    import export_props_thms, file_corr     # whole-program form (Props/ExportProps) about TLX.Export.framesFrom, tied file to file
+    ctx.prove(["TLX.Props.C08", "TLX.Props.C05", "TLX.Props.C08Session", "TLX.Props.C02Out", "TLX.Props.C01Pipeline"] + export_props_thms.MODULES)
+    ctx.require_theorems(THEOREMS + session_corr.THEOREMS_C08 + export_props_thms.THEOREMS_C08 + ["TLX.Props.C02Out." + t for t in ("build_take_prefix_quic", "build_take_dropLast_prefix", "build_take_prefix_needs_distinct")] + ["TLX.Props.C01Pipeline.connOut_take_prefix"])
     import c06_model
     c06_model.run_model(ctx)          # ties TLX.TcpOut to the real OutputBuilder
     import q1_udpout
     q1_udpout.correspond(ctx)         # ties TLX.Quic.UdpOut to the real QUICOutputbuilder
+    file_corr.correspond(ctx, ctx.n(12, 200))     # ties the whole-program model (ExportProps' subject) file to file
     import c05
     # ties TLX.Reassembly (carriers, online delivery) to the real Session; C05's own framing oracle (and its open known
     # finding) stays in C05
